@@ -34,7 +34,148 @@ def clean_args(args):
             a[k] = list(a[k])
     if "error_scaling" in a:
         a["error_scaling"] = dict(a["error_scaling"])
+    spec = a.pop("numpy_types", None)
+    if spec:
+        a = _numpify(a, spec)
     return a
+
+
+# ------------------------------------------------------------------------------------------
+# numpy-typed inputs (weights read through numpy / pandas are np.int64 / np.float32 ... scalars, which are NOT instances of
+# int / float): the generators attach  args["numpy_types"] = {"flow": <dtype>, "k": <dtype>, "scaling": <dtype>, "factors": <dtype>};
+# the oracles keep working on the python-typed args, clean_args() hands the numpy-typed copy to the constructor
+NP_FLOW = ("int64", "int32", "float64", "float32")
+K_NUMPY = "numpy_scalar_bound_falls_back_to_default"
+
+
+def _np_exact(v, tname):
+    """v as numpy scalar of dtype tname, or None if not exactly representable"""
+    import numpy as np
+    t = getattr(np, tname)
+    if isinstance(v, bool):
+        return None
+    try:
+        if tname.startswith("int"):
+            if float(v) != int(v) or abs(int(v)) >= 2 ** 31:
+                return None
+            return t(int(v))
+        x = t(v)
+        return x if float(x) == float(v) and F(float(x)) == F(v) else None
+    except Exception:
+        return None
+
+
+def pynum(x):
+    """numpy scalar -> python number (exact); everything else unchanged"""
+    return x.item() if hasattr(x, "item") and hasattr(x, "dtype") else x
+
+
+def numpy_spec(rng, p=0.2):
+    """None or a random assignment of numpy dtypes to the numeric inputs"""
+    if rng.random() >= p:
+        return None
+    spec = {"flow": rng.choice(NP_FLOW)}
+    if rng.random() < 0.5: spec["k"] = rng.choice(["int64", "int32"])
+    if rng.random() < 0.5: spec["scaling"] = rng.choice(["float64", "float32"])
+    if rng.random() < 0.5: spec["factors"] = rng.choice(["float64", "float32", "int64"])
+    return spec
+
+
+NP_ROT = (None, {"flow": "int64"}, None, {"flow": "int32", "k": "int64"}, {"flow": "float32", "scaling": "float32", "factors": "float32"},
+          None, {"flow": "float64", "k": "int32", "factors": "int64"})
+
+
+def attach_numpy(ctx, cls, args, spec):
+    """attach the numpy dtype assignment to the instance (None: leave it python-typed) and run the numpy-k clause"""
+    if not spec:
+        return args
+    args = dict(args, numpy_types=dict(spec))
+    ctx.count("numpy_inputs", "instances_with_numpy_typed_values")
+    for x, y in spec.items():
+        ctx.dist(f"numpy {x}:{y}")
+    return numpy_k_check(ctx, cls, args)
+
+
+def _numpify(a, spec):
+    fa = a.get("flow_attr", "flow"); G = a["G"]
+    tn = spec.get("flow")
+    if tn:
+        vals = [d[fa] for _, _, d in G.edges(data=True) if fa in d] + [d[fa] for _, d in G.nodes(data=True) if fa in d]
+        for cand in (tn, "float64"):
+            if all(_np_exact(v, cand) is not None for v in vals):
+                H = G.copy()
+                for u, v, d in H.edges(data=True):
+                    if fa in d: d[fa] = _np_exact(d[fa], cand)
+                for v, d in H.nodes(data=True):
+                    if fa in d: d[fa] = _np_exact(d[fa], cand)
+                a["G"] = H
+                break
+    if spec.get("k") and a.get("k") is not None:
+        a["k"] = _np_exact(a["k"], spec["k"])
+    if spec.get("scaling") and a.get("error_scaling"):
+        a["error_scaling"] = {e: (_np_exact(x, spec["scaling"]) if _np_exact(x, spec["scaling"]) is not None else x) for e, x in a["error_scaling"].items()}
+    if spec.get("factors") and a.get("path_length_factors"):
+        a["path_length_factors"] = [(_np_exact(x, spec["factors"]) if _np_exact(x, spec["factors"]) is not None else x) for x in a["path_length_factors"]]
+    return a
+
+
+K_NUMPY_RAISE = "numpy_scalar_in_linear_expression_raises"
+
+
+def _lp_bounds(m):
+    lp = m.solver.solver.getLp()
+    return (list(lp.col_lower_), list(lp.col_upper_), list(lp.row_lower_), list(lp.row_upper_))
+
+
+def numpy_k_check(ctx, cls, args):
+    """The numpy-typed instance against its python-typed twins (constructors only, nothing is solved):
+    (a) the constructor must not fail on numpy scalars where the python-typed instance is accepted (K_NUMPY_RAISE while open);
+    (b) with k given as numpy integer and weight_type=int the LP must have the same column / row bounds as with the python
+        int k (K_NUMPY while open).
+    Returns the args for the ordinary clauses: the python-typed twin after (a), the instance without numpy k after (b),
+    else the numpy-typed instance itself -- any other effect of numpy scalars is for the ordinary clauses (E1, E2) to find."""
+    import flowpaths as fp
+    spec = args.get("numpy_types")
+    if not spec or not any(x in spec for x in ("k", "scaling", "factors")):
+        return args          # numpy flow values only: nothing known, straight to the ordinary clauses
+    try:
+        m = getattr(fp, cls)(**clean_args(args))
+    except (ValueError, OverflowError):
+        return args
+    except Exception as e:
+        py = {x: y for x, y in args.items() if x != "numpy_types"}
+        try:
+            getattr(fp, cls)(**clean_args(py))
+        except Exception:
+            return args
+        ctx.report(f"{cls}: the constructor raises {e!r} on numpy-typed inputs {spec} and accepts the same instance with python numbers",
+                   {"class": cls, "args": describe(args), "exception": repr(e)}, key=K_NUMPY_RAISE)
+        return py
+    # known triggers on the tree as it is: k as numpy integer (w_max = k * int(...) stays numpy), path_length_factors as numpy
+    # scalars (bounds of the factor variables); numpy FLOW values do not reach a bound (w_max is cast by weight_type)
+    trig = [x for x in ("k", "factors") if x in spec and ((x == "k" and args.get("k") is not None) or (x == "factors" and args.get("path_length_factors")))]
+    if trig:
+        plain = dict(args, numpy_types={x: y for x, y in spec.items() if x not in trig})
+        try:
+            m2 = getattr(fp, cls)(**clean_args(plain))
+            b1, b2 = _lp_bounds(m), _lp_bounds(m2)
+        except Exception:
+            return args
+        if b1 != b2:
+            nd = sum(1 for i in range(4) for x, y in zip(b1[i], b2[i]) if x != y)
+            ctx.report(f"{cls}: with {' and '.join(trig)} given as numpy scalars ({ {x: spec[x] for x in trig} }) {nd} column / row bounds differ from the LP built "
+                       f"with the same values as python numbers (w_max is {type(m.w_max).__name__} {m.w_max} vs {type(m2.w_max).__name__} {m2.w_max})",
+                       {"class": cls, "args": describe(args)}, key=K_NUMPY)
+            return plain
+        ctx.count("numpy_inputs", "numpy_k_or_factors_build_the_same_LP_as_python_numbers")
+    return args
+
+
+def flow_tokens_py(st, ids, attr):
+    """e1.flow_tokens with numpy scalars converted exactly to python numbers first"""
+    import common
+    es = [(u, v) for u, v in st.edges() if attr in st[u][v]]
+    return [len(es), [[ids[u], ids[v]] + common.qtok(pynum(st[u][v][attr])) for u, v in es]]
 
 
 def routes_key(cls):
